@@ -1,6 +1,7 @@
 -- driver gm_c11: path components (UPath / Glob / Rewrite), see GrcovModel/Drv/C11.lean
 import GrcovModel.Drv.C11
 import GrcovModel.Drv.C11Partial
+import GrcovModel.Drv.C11Idem
 open Grcov.Drv.C11
 
 /-- part drivers first, then the property's own ops -/
@@ -11,6 +12,7 @@ def dispatch (line : String) : String :=
   | "c11.partial.rewrite" :: args => Grcov.Drv.C11Partial.handleRewrite args
   | "c11.partial.info" :: args => Grcov.Drv.C11Partial.handleInfo args
   | "c11.partial.cands" :: args => Grcov.Drv.C11Partial.handleCands args
+  | "c11.idem.twice" :: args => Grcov.Drv.C11Idem.handleTwice args
   | _ => step line
 
 partial def loop (h : IO.FS.Stream) (out : IO.FS.Stream) : IO Unit := do
